@@ -487,6 +487,9 @@ func genC17(r *simrt.Rand, tier string, idx uint64) Workload {
 	instants := []int64{0, 0, 0, 1, 2 * ms, 5 * ms, 5*ms + 1, 29 * ms, 30 * ms, 31 * ms, w.ExpNs - 1, w.ExpNs, w.ExpNs + 1, w.ExpNs + 5*ms, w.ExpNs + 30*ms, 2 * w.ExpNs}
 	for t := 0; t < nt; t++ {
 		n := 1 + r.Intn(3)
+		if nt == 1 {
+			n = 1 + r.Intn(5) // a lone caller: every sequential call pattern up to length 5
+		}
 		var calls []MCall
 		at := int64(0)
 		key := r.Intn(w.Keys)
